@@ -1,10 +1,11 @@
 #!/bin/sh
-# tools/run_preserving.sh [repo] -- changes that PRESERVE every listed property (another id order, another split rule, another tuning constant):
+# tools/run_preserving.sh [repo]   (PRESERVING_ONLY="name name ..." restricts the variants) -- changes that PRESERVE every listed property (another id order, another split rule, another tuning constant):
 # every quick check must exit 0 on them (MODEL-DRIFT lines are expected).  Prints one line per variant x check that does NOT exit 0.
 R="${1:-${VP_RUN_REPO:-/repo}}"
 cd "$(dirname "$0")/.." || exit 2
 for d in preserving/*/; do
   id=$(basename "$d")
+  if [ -n "${PRESERVING_ONLY:-}" ]; then case " $PRESERVING_ONLY " in *" $id "*) ;; *) continue;; esac; fi
   git -C "$R" apply "$PWD/$d/patch.diff" || { echo "$id DOES-NOT-APPLY"; continue; }
   for p in C01 C02 C03 C04 C05 C06 C07 C08 C09 C10 C11 C12 C13 C14 C15 C16 C17 C18 C19 C20; do
     out=$(VERIF_REPO="$R" ./check "$p" --tier quick 2>&1); rc=$?
